@@ -1,0 +1,171 @@
+//go:build verif
+
+package hclwrite
+
+import "fmt"
+
+// Read-only structural snapshot of the syntax tree for the verification
+// harness in /verif (property C12). This file is compiled only with
+// -tags verif and adds no behaviour: nothing here writes to the tree.
+
+// VerifNode describes one node: its content kind, its tokens (leaf kinds and
+// expressions) or its child list as reached from children.first, whether it is
+// a member of its parent's nodeSet, where the parent's cached handles point,
+// and which structural invariants of its own lists do not hold.
+type VerifNode struct {
+	Kind     string         // Tokens, comments, identifier, number, quoted, Expression, Attribute, Block, Body, blockLabels, File
+	Tokens   Tokens         // leaf kinds and Expression: BuildTokens of the content
+	Children []*VerifNode   // File, Attribute, Block, Body, blockLabels
+	InItems  bool           // member of the parent's nodeSet (Body.items, blockLabels.items)
+	Handles  map[string]int // index in Children of each cached handle; -1 nil; -2 not in the child list
+	Problems []string       // violated invariants (empty when the node is well-formed)
+}
+
+// VerifDumpFile snapshots a whole file.
+func VerifDumpFile(f *File) *VerifNode {
+	ret := &VerifNode{Kind: "File"}
+	kids := verifWalk(f.children, &ret.Problems)
+	ret.Children = verifChildren(kids, nil)
+	ret.Handles = map[string]int{"body": verifIndex(kids, f.body, "body", &ret.Problems)}
+	return ret
+}
+
+// VerifDumpBlock snapshots a block that is not (or no longer) part of a file.
+func VerifDumpBlock(b *Block) *VerifNode {
+	return verifContent(b)
+}
+
+// VerifDumpBody snapshots a body.
+func VerifDumpBody(b *Body) *VerifNode {
+	return verifContent(b)
+}
+
+func verifWalk(ns *nodes, problems *[]string) []*node {
+	var out []*node
+	seen := map[*node]bool{}
+	var prev *node
+	for n := ns.first; n != nil; n = n.after {
+		if seen[n] {
+			*problems = append(*problems, "child list is cyclic")
+			break
+		}
+		seen[n] = true
+		if n.before != prev {
+			*problems = append(*problems, fmt.Sprintf("child %d: before pointer does not match the walk", len(out)))
+		}
+		if n.list != ns {
+			*problems = append(*problems, fmt.Sprintf("child %d: list pointer is not the owning list", len(out)))
+		}
+		out = append(out, n)
+		prev = n
+	}
+	if ns.last != prev {
+		*problems = append(*problems, "last does not point at the final node of the walk")
+	}
+	return out
+}
+
+func verifIndex(kids []*node, h *node, name string, problems *[]string) int {
+	if h == nil {
+		return -1
+	}
+	for i, k := range kids {
+		if k == h {
+			return i
+		}
+	}
+	if h.list == nil {
+		*problems = append(*problems, "handle "+name+" points at a detached node")
+	} else {
+		*problems = append(*problems, "handle "+name+" points at a node of another list")
+	}
+	return -2
+}
+
+func verifChildren(kids []*node, items nodeSet) []*VerifNode {
+	out := make([]*VerifNode, len(kids))
+	for i, k := range kids {
+		out[i] = verifContent(k.content)
+		out[i].InItems = items.Has(k)
+	}
+	return out
+}
+
+func verifItems(kids []*node, items nodeSet, problems *[]string) {
+	missing := 0
+	for n := range items {
+		found := false
+		for _, k := range kids {
+			if k == n {
+				found = true
+				break
+			}
+		}
+		if !found {
+			missing++
+		}
+	}
+	if missing > 0 {
+		*problems = append(*problems, fmt.Sprintf("items: %d member(s) not in the child list", missing))
+	}
+}
+
+func verifContent(c nodeContent) *VerifNode {
+	ret := &VerifNode{}
+	switch c := c.(type) {
+	case Tokens:
+		ret.Kind = "Tokens"
+		ret.Tokens = c
+	case *comments:
+		ret.Kind = "comments"
+		ret.Tokens = c.tokens
+	case *identifier:
+		ret.Kind = "identifier"
+		ret.Tokens = Tokens{c.token}
+	case *number:
+		ret.Kind = "number"
+		ret.Tokens = Tokens{c.token}
+	case *quoted:
+		ret.Kind = "quoted"
+		ret.Tokens = c.tokens
+	case *Expression:
+		ret.Kind = "Expression"
+		ret.Tokens = c.BuildTokens(nil)
+	case *Attribute:
+		ret.Kind = "Attribute"
+		kids := verifWalk(c.children, &ret.Problems)
+		ret.Children = verifChildren(kids, nil)
+		ret.Handles = map[string]int{
+			"leadComments": verifIndex(kids, c.leadComments, "leadComments", &ret.Problems),
+			"name":         verifIndex(kids, c.name, "name", &ret.Problems),
+			"expr":         verifIndex(kids, c.expr, "expr", &ret.Problems),
+			"lineComments": verifIndex(kids, c.lineComments, "lineComments", &ret.Problems),
+		}
+	case *Block:
+		ret.Kind = "Block"
+		kids := verifWalk(c.children, &ret.Problems)
+		ret.Children = verifChildren(kids, nil)
+		ret.Handles = map[string]int{
+			"leadComments": verifIndex(kids, c.leadComments, "leadComments", &ret.Problems),
+			"typeName":     verifIndex(kids, c.typeName, "typeName", &ret.Problems),
+			"labels":       verifIndex(kids, c.labels, "labels", &ret.Problems),
+			"open":         verifIndex(kids, c.open, "open", &ret.Problems),
+			"body":         verifIndex(kids, c.body, "body", &ret.Problems),
+			"close":        verifIndex(kids, c.close, "close", &ret.Problems),
+		}
+	case *Body:
+		ret.Kind = "Body"
+		kids := verifWalk(c.children, &ret.Problems)
+		ret.Children = verifChildren(kids, c.items)
+		verifItems(kids, c.items, &ret.Problems)
+	case *blockLabels:
+		ret.Kind = "blockLabels"
+		kids := verifWalk(c.children, &ret.Problems)
+		ret.Children = verifChildren(kids, c.items)
+		verifItems(kids, c.items, &ret.Problems)
+	default:
+		ret.Kind = fmt.Sprintf("%T", c)
+		ret.Tokens = c.BuildTokens(nil)
+	}
+	return ret
+}
